@@ -2,6 +2,7 @@ package core
 
 import (
 	"bufio"
+	"encoding/binary"
 	"encoding/json"
 	"fmt"
 	"os"
@@ -67,6 +68,10 @@ type WorkerArgs struct {
 	MaxRuns    int64
 	// Digest makes the worker print one behaviour digest per run (determinism self-test).
 	Digest bool
+	// CurFile: the worker records the index and seed of the run it is about to execute in this file
+	// (16 bytes, overwritten in place), so that the supervisor knows which run killed the process when
+	// the code under test crashes it in a way no recover() can stop (fatal error, stack exhaustion).
+	CurFile string
 }
 
 var outMu sync.Mutex
@@ -159,6 +164,10 @@ func WorkerMain(e Engine, a *WorkerArgs) int {
 		return 0
 	}
 
+	var curF *os.File
+	if a.CurFile != "" {
+		curF, _ = os.OpenFile(a.CurFile, os.O_CREATE|os.O_WRONLY, 0o600)
+	}
 	for i := int64(a.Idx); ; i += int64(a.Count) {
 		if time.Since(start).Seconds() > a.BudgetS {
 			break
@@ -169,6 +178,12 @@ func WorkerMain(e Engine, a *WorkerArgs) int {
 		seed := RunSeed(a.Seed, a.Property+"/"+a.Sub, i)
 		t := NewTape(seed)
 		cfg.RunIndex = i
+		if curF != nil {
+			var b [16]byte
+			binary.LittleEndian.PutUint64(b[:8], uint64(i))
+			binary.LittleEndian.PutUint64(b[8:], seed)
+			curF.WriteAt(b[:], 0)
+		}
 		st.Events = st.Events[:0]
 		st.Dig, st.Uncontrolled = 0, false
 		var prev *digestSnap
